@@ -375,5 +375,158 @@ Section VMFacts.
           * apply (IH _ act ridx Hh' Hs5 f); [lia | simpl; lia |]. destruct Hei. constructor; simpl; auto.
           * simpl. intros m' H. exact H.
     Qed.
+
+    (* the call made by ENDTAG_ENDSCOPE when tagContent is a template of this program *)
+    Lemma call_result f s (mc : machD) :
+      f <= n -> In s subs -> pc D mc = fst s -> Good mc ->
+      exists es, lookup_sym tab (snd s) = Some es /\
+        (runD f (S es) mc = OutOfFuel \/
+         exists m2, runD f (S es) mc = Done m2 /\ c_sc (cx D m2) = c_sc (cx D mc)).
+    Proof.
+      intros Hf Hin Hpc Hg.
+      destruct (subs_valid s Hin) as (pre' & el' & post' & es & Ep & Es & Wel & Ls & Le).
+      exists es. split; [exact Ls|].
+      assert (R : Reaches (S es) f mc (SegPost mc (fst s + length el'))).
+      { apply (Hn (fst s) el' pre' post' Ep (eq_sym Es) Wel (S es) f mc Hf); [lia | exact Hpc | exact Hg]. }
+      destruct R as [R|(f' & m2 & Hle & Hr & (P1 & P2 & P3 & P4 & P5 & P6))]; [now left|].
+      destruct (run_at_limit f' (S es) m2) as [X|X]; [lia | left; congruence | right].
+      exists m2. split; [congruence | exact P5].
+    Qed.
+
+    Lemma unwind_false lvd s s0 : unwind lvd false s = Some s0 ->
+      if lvd then sc_pop s = Some s0 else s = s0.
+    Proof. unfold unwind. destruct lvd; intros H; [exact H | now inversion H]. Qed.
+
+    (* ENDTAG_ENDSCOPE with no repeat in progress closes the element *)
+    Lemma end_run fuel mj ridx :
+      fuel <= S n -> pc D mj = e -> EI false ridx mj ->
+      Reaches L fuel mj (SegPost m0 (S e)).
+    Proof.
+      intros Hf Hpc Hei. destruct fuel as [|f]; [apply reaches_0|].
+      assert (Hnth : nth_error prog (pc D mj) = Some en) by (rewrite Hpc; apply N_en).
+      assert (Hlt : pc D mj < L) by lia.
+      pose proof (ei_ss _ _ _ Hei) as Ess. pose proof (ei_back _ _ _ Hei) as Eb.
+      pose proof (ei_cx _ _ _ Hei) as Ecx. pose proof (ei_curs _ _ _ Hei) as Ecu. simpl in Ess, Eb.
+      (* what the closing part does on any machine that agrees with mj on stack, regs, scopes *)
+      assert (Fin : forall m1 : machD, sstack D m1 = sstack D mj -> c_sc (cx D m1) = c_sc (cx D mj) ->
+                pc D m1 = e -> curs D m1 = curs D mj -> slots_ok (slotp D m1) ->
+                exists m', endtag_finish m1 (rg D mj) = Done m' /\ SegPost m0 (S e) m').
+      { intros m1 A1 A2 A3 A4 A5. unfold endtag_finish. rewrite Eb, A1, Ess.
+        apply unwind_false in Ecx. rewrite <- A2 in Ecx.
+        destruct (r_lvd (rg D mj)).
+        - unfold pop_locals. rewrite Ecx. eexists. split; [reflexivity|].
+          repeat split; simpl; auto; try lia; try congruence.
+        - eexists. split; [reflexivity|]. repeat split; simpl; auto; try lia; try congruence. }
+      destruct (r_tc (rg D mj)) as [| |s] eqn:Etc.
+      - destruct (Fin (updm mj en)) as (m' & Em & Pm); simpl; auto; [apply (ei_slotp _ _ _ Hei)|].
+        eapply reaches_step; [exact Hlt | exact Hnth | rewrite (step_etag _ _ _ Hen), Etc; exact Em |].
+        now apply reaches_here.
+      - destruct (Fin (updm mj en)) as (m' & Em & Pm); simpl; auto; [apply (ei_slotp _ _ _ Hei)|].
+        eapply reaches_step; [exact Hlt | exact Hnth | rewrite (step_etag _ _ _ Hen), Etc; exact Em |].
+        now apply reaches_here.
+      - assert (Hs : In s subs) by (pose proof (ei_tc _ _ _ Hei) as T; rewrite Etc in T; exact T).
+        set (mc := mkMach D (fst s) [] regs0 (slotp D mj) (slotp D mj) (cx D mj) (dat D (updm mj en))).
+        destruct (call_result f s mc) as (es & Ls & [R|(m2 & R & C2)]); try lia; auto.
+        { repeat split; simpl; try apply (ei_slotp _ _ _ Hei); exact I. }
+        + eapply reaches_step_oof; [exact Hlt | exact Hnth |].
+          rewrite (step_etag _ _ _ Hen), Etc, Ls. fold mc. now rewrite R.
+        + destruct (Fin (mkMach D (pc D mj) (sstack D mj) (rg D mj) [] (curs D mj) (cx D m2) (dat D m2)))
+            as (m' & Em & Pm); simpl; auto; [intros ? ? X; discriminate X|].
+          eapply reaches_step; [exact Hlt | exact Hnth | |].
+          * rewrite (step_etag _ _ _ Hen), Etc, Ls. fold mc. rewrite R. exact Em.
+          * now apply reaches_here.
+    Qed.
+
+    (* ENDTAG_ENDSCOPE while a repeat is in progress goes back to the REPEAT command *)
+    Lemma end_back fuel mj ridx :
+      fuel <= S n -> pc D mj = e -> EI true ridx mj ->
+      Reaches L fuel mj (fun m' => pc D m' = ridx /\ EI true ridx m' /\ r_rep (rg D m') = r_rep (rg D mj)).
+    Proof.
+      intros Hf Hpc Hei. destruct fuel as [|f]; [apply reaches_0|].
+      assert (Hnth : nth_error prog (pc D mj) = Some en) by (rewrite Hpc; apply N_en).
+      assert (Hlt : pc D mj < L) by lia.
+      pose proof (ei_back _ _ _ Hei) as Eb. simpl in Eb.
+      assert (Fin : forall m1 : machD, sstack D m1 = sstack D mj -> c_sc (cx D m1) = c_sc (cx D mj) ->
+                rg D m1 = rg D mj -> curs D m1 = curs D mj -> slots_ok (slotp D m1) ->
+                exists m', endtag_finish m1 (rg D mj) = Done m' /\
+                           pc D m' = ridx /\ EI true ridx m' /\ r_rep (rg D m') = r_rep (rg D mj)).
+      { intros m1 A1 A2 A3 A4 A5. unfold endtag_finish. rewrite Eb. eexists. split; [reflexivity|].
+        simpl. split; [reflexivity|]. split; [|now rewrite A3].
+        destruct Hei. constructor; simpl; try rewrite A3; try rewrite A1; try rewrite A2; try rewrite A4; auto. }
+      destruct (r_tc (rg D mj)) as [| |s] eqn:Etc.
+      - destruct (Fin (updm mj en)) as (m' & Em & Pm); simpl; auto; [apply (ei_slotp _ _ _ Hei)|].
+        eapply reaches_step; [exact Hlt | exact Hnth | rewrite (step_etag _ _ _ Hen), Etc; exact Em |].
+        now apply reaches_here.
+      - destruct (Fin (updm mj en)) as (m' & Em & Pm); simpl; auto; [apply (ei_slotp _ _ _ Hei)|].
+        eapply reaches_step; [exact Hlt | exact Hnth | rewrite (step_etag _ _ _ Hen), Etc; exact Em |].
+        now apply reaches_here.
+      - assert (Hs : In s subs) by (pose proof (ei_tc _ _ _ Hei) as T; rewrite Etc in T; exact T).
+        set (mc := mkMach D (fst s) [] regs0 (slotp D mj) (slotp D mj) (cx D mj) (dat D (updm mj en))).
+        destruct (call_result f s mc) as (es & Ls & [R|(m2 & R & C2)]); try lia; auto.
+        { repeat split; simpl; try apply (ei_slotp _ _ _ Hei); exact I. }
+        + eapply reaches_step_oof; [exact Hlt | exact Hnth |].
+          rewrite (step_etag _ _ _ Hen), Etc, Ls. fold mc. now rewrite R.
+        + destruct (Fin (mkMach D (pc D mj) (sstack D mj) (rg D mj) [] (curs D mj) (cx D m2) (dat D m2)))
+            as (m' & Em & Pm); simpl; auto; [intros ? ? X; discriminate X|].
+          eapply reaches_step; [exact Hlt | exact Hnth | |].
+          * rewrite (step_etag _ _ _ Hen), Etc, Ls. fold mc. rewrite R. exact Em.
+          * now apply reaches_here.
+    Qed.
+
+    Lemma unwind_true lvd s s0 : unwind lvd true s = Some s0 ->
+      exists a b, sc_remove_repeat s = Some a /\ sc_pop a = Some b /\ unwind lvd false b = Some s0.
+    Proof.
+      unfold unwind. destruct (sc_remove_repeat s) as [a|] eqn:Ea; [|discriminate].
+      destruct (sc_pop a) as [b|] eqn:Eb; [|discriminate]. intros H. exists a, b. repeat split; auto.
+    Qed.
+
+    (* the repeat loop: from the ENDTAG_ENDSCOPE with k further items to go *)
+    Section Loop.
+      Variables (hpre_r : list cmd) (v ex : str) (sym : nat) (hs' : list cmd).
+      Hypothesis Hhead : head = hpre_r ++ CRepeat v ex sym :: hs'.
+      Hypothesis Hs' : head_sorted 5 hs' = true.
+      Let ridx := o + 1 + length hpre_r.
+
+      Lemma N_rep : nth_error prog ridx = Some (CRepeat v ex sym).
+      Proof.
+        unfold ridx. apply N_head. rewrite Hhead, nth_error_app2 by lia.
+        replace (length hpre_r - length hpre_r) with 0 by lia. reflexivity.
+      Qed.
+
+      Lemma rep_sym : lookup_sym tab sym = Some e.
+      Proof. apply (head_sym (CRepeat v ex sym)); [|reflexivity]. rewrite Hhead. apply in_or_app. right. now left. Qed.
+
+      Lemma ridx_lt : ridx < L.
+      Proof. unfold ridx. assert (length hpre_r < length head) by (rewrite Hhead, app_length; simpl; lia). lia. Qed.
+
+      Lemma loop_run : forall k fuel mj,
+        fuel <= S n -> pc D mj = e -> EI true ridx mj -> r_rep (rg D mj) = Some k ->
+        Reaches L fuel mj (SegPost m0 (S e)).
+      Proof.
+        assert (Hh2 : head = (hpre_r ++ [CRepeat v ex sym]) ++ hs') by (rewrite <- app_assoc; exact Hhead).
+        assert (Hl2 : o + 1 + length (hpre_r ++ [CRepeat v ex sym]) = S ridx) by (rewrite app_length; simpl; unfold ridx; lia).
+        induction k as [|k IH]; intros fuel mj Hf Hpc Hei Hk.
+        - (* last item done: leave the loop *)
+          eapply reaches_bind; [apply (end_back fuel mj ridx Hf Hpc Hei)|].
+          intros f1 m1 Hf1 (P1 & P2 & P3). rewrite Hk in P3.
+          destruct f1 as [|f]; [apply reaches_0|].
+          destruct (unwind_true _ _ _ (ei_cx _ _ _ P2)) as (a & b & Ea & Eb & Ec).
+          pose proof (ei_ss _ _ _ P2) as Ess. simpl in Ess.
+          eapply reaches_step; [rewrite P1; apply ridx_lt | rewrite P1; apply N_rep | |].
+          + unfold step. simpl. rewrite P3. unfold remove_repeat, pop_locals. simpl. rewrite Ea. simpl.
+            rewrite Eb, rep_sym, Ess. reflexivity.
+          + apply (end_run f _ ridx); [lia | reflexivity |].
+            destruct P2. constructor; simpl; auto. intros ? ? X; auto.
+        - eapply reaches_bind; [apply (end_back fuel mj ridx Hf Hpc Hei)|].
+          intros f1 m1 Hf1 (P1 & P2 & P3). rewrite Hk in P3.
+          destruct f1 as [|f]; [apply reaches_0|].
+          eapply reaches_step; [rewrite P1; apply ridx_lt | rewrite P1; apply N_rep | |].
+          + unfold step. simpl. rewrite P3. reflexivity.
+          + eapply reaches_bind.
+            * apply (tail_run hs' _ true ridx Hh2 Hs' f); [lia | simpl; lia |].
+              destruct P2. constructor; simpl; auto; [eauto | now rewrite unwind_set_act].
+            * simpl. intros f2 m2 Hf2 (Q1 & Q2 & Q3). apply (IH f2 m2); [lia | exact Q1 | exact Q2 | exact Q3].
+      Qed.
+    End Loop.
   End Elem.
 End VMFacts.
